@@ -19,6 +19,9 @@ Section Quiet.
   Hypothesis keep_Inv : forall s s1, keep s s1 -> Inv s -> Inv s1.
   Hypothesis inv_vm : forall s, Inv s -> vm_ok s.
   Hypothesis Inv_set_calls : forall s c, Inv s -> frames_lt (cap s) c -> Inv (set_calls s c).
+  (* SetUpvalue through a closed upvalue *)
+  Definition write_closed_ok : Prop := forall s ua u wv,
+    hget (st_heap s) ua = Some (OUp u) -> u_loc u = None -> Inv s -> Inv (write_closed s ua u wv).
 
   Definition sres_inv (r : sres) : Prop :=
     match r with SNext _ s' | SExit s' | SErr _ _ s' => Inv s' | SStop _ _ => True end.
@@ -94,7 +97,7 @@ Section Quiet.
     intros opc ip0 ip s Hs; unfold i_37_42; cbv zeta.
     destruct (op_u32 P ip); [|inv_close]. destruct (op_u32 P (ip + 4)); [|inv_close].
     destruct (salloc s _) as [s1 a] eqn:E. apply push_next_ok.
-    apply salloc_keep in E; [inv_close|destruct (opc =? 37)%N; reflexivity].
+    apply salloc_keep in E; [inv_close|destruct (opc =? 37)%N; intros ? ?; discriminate].
   Qed.
   Lemma i_38_ok : forall opc ip0 ip s, Inv s -> sres_inv (i_38 P opc ip0 ip s). Proof. instr i_38. Qed.
 
@@ -167,11 +170,11 @@ Section Quiet.
   Qed.
 
   (* ---- upvalue access ---- *)
-  Lemma i_43_44_ok : forall opc ip0 ip s, Inv s -> sres_inv (i_43_44 P opc ip0 ip s).
+  Lemma i_43_44_ok : forall opc ip0 ip s, (opc = 43%N -> write_closed_ok) -> Inv s -> sres_inv (i_43_44 P opc ip0 ip s).
   Proof.
-    intros opc ip0 ip s Hs; unfold i_43_44; cbv zeta.
+    intros opc ip0 ip s Hw Hs; unfold i_43_44; cbv zeta.
     destruct (op_u32 P ip); [|exact I].
-    destruct (opc =? 43)%N.
+    destruct (N.eqb_spec opc 43) as [Eopc|Eopc].
     - destruct (spop s) as [s1 wv] eqn:E1. assert (H1 : Inv s1) by inv_close.
       destruct (st_calls s1) as [|fr rest]; [exact I|].
       destruct (fr_clo fr) as [ca|]; [|exact H1].
@@ -180,7 +183,7 @@ Section Quiet.
       destruct (hget (st_heap s1) ua) as [[t|b|h' ar'|h'|h' ar' ups'|u]|] eqn:Eu; try exact H1; try exact I.
       destruct (u_loc u) as [l|] eqn:El; cbn [sres_inv].
       + inv_close.
-      + apply (keep_Inv s1); [|exact H1]. apply hset_keep; [rewrite Eu; cbn; rewrite El; reflexivity|reflexivity].
+      + apply (Hw Eopc s1 ua u wv Eu El H1).
     - destruct (st_calls s) as [|fr rest]; [exact I|].
       destruct (fr_clo fr) as [ca|]; [|exact Hs].
       destruct (hget (st_heap s) ca) as [[t|b|h ar|h|h ar ups|u]|]; try exact I.
@@ -236,9 +239,10 @@ Section Quiet.
   Theorem step_quiet : forall ip0 s,
     ~ In (nth (N.to_nat ip0) (p_code P) 255%N) [4; 22; 45; 46]%N ->
     (nth (N.to_nat ip0) (p_code P) 255%N = 11%N -> not_native_callee s) ->
+    (nth (N.to_nat ip0) (p_code P) 255%N = 43%N -> write_closed_ok) ->
     Inv s -> sres_inv (step F bld P reenter ip0 s).
   Proof.
-    intros ip0 s Hq H11 Hs. unfold step. cbv zeta.
+    intros ip0 s Hq H11 H43 Hs. unfold step. cbv zeta.
     destruct (nth (N.to_nat ip0) (p_code P) 255%N) as [|p] eqn:Eop; [apply binary_op_ok; exact Hs|].
     do 6 (try destruct p as [p|p|]).
     all: try (exfalso; apply Hq; cbn; tauto).
@@ -253,14 +257,15 @@ Section Quiet.
       | (apply i_29_30_ok; exact Hs) | (apply i_31_ok; exact Hs) | (apply i_32_ok; exact Hs) | (apply i_33_ok; exact Hs)
       | (apply i_34_ok; exact Hs) | (apply i_35_ok; exact Hs) | (apply i_36_ok; exact Hs)
       | (apply i_37_42_ok; exact Hs) | (apply i_38_ok; exact Hs) | (apply i_39_ok; exact Hs) | (apply i_40_ok; exact Hs)
-      | (apply i_41_ok; exact Hs) | (apply i_43_44_ok; exact Hs)
+      | (apply i_41_ok; exact Hs) | (apply i_43_44_ok; [exact H43|exact Hs]) | (apply i_43_44_ok; [discriminate|exact Hs])
       | (destruct (spop s) as [s1 v1] eqn:E; cbn [fst]; inv_close)
       | exact Hs
       | exact I ].
   Qed.
 End Quiet.
 
-(* the instance: vm_ok + the head of the list + the view of every object are those of a fixed state s0 *)
+(* the instances *)
+(* the head of the list and the view of every object are those of s0 *)
 Definition same_upvalues (s0 s : state) : Prop :=
   st_open s = st_open s0 /\ forall a, oview (hget (st_heap s) a) = oview (hget (st_heap s0) a).
 
@@ -279,25 +284,64 @@ Proof.
   - rewrite E in B. cbn in B. symmetry in B. destruct (oview_some _ _ _ B) as (v' & E'). eauto.
 Qed.
 
+Lemma keep_same_upvalues s0 x x1 : keep x x1 -> same_upvalues s0 x -> same_upvalues s0 x1.
+Proof.
+  intros ((K1 & K2 & K3 & K4 & K5) & _) (B & C). split; [congruence|]. intros a. rewrite K3. apply C.
+Qed.
+
+(* every quiet instruction: the upvalues keep their state and the heap only grows *)
 Theorem step_quiet_same_upvalues : forall F bld P reenter ip0 s,
   ~ In (nth (N.to_nat ip0) (p_code P) 255%N) [4; 22; 45; 46]%N ->
   (nth (N.to_nat ip0) (p_code P) 255%N = 11%N -> not_native_callee s) ->
   vm_ok s ->
   match step F bld P reenter ip0 s with
-  | SNext _ s' | SExit s' | SErr _ _ s' => vm_ok s' /\ same_upvalues s s'
+  | SNext _ s' | SExit s' | SErr _ _ s' =>
+      vm_ok s' /\ same_upvalues s s' /\ heap_mono (st_heap s) (st_heap s')
   | SStop _ _ => True
   end.
 Proof.
   intros F bld P re ip0 s Hq H11 Hs.
-  pose proof (step_quiet F bld P re (fun x => vm_ok x /\ same_upvalues s x)) as H.
-  assert (G : sres_inv (fun x => vm_ok x /\ same_upvalues s x) (step F bld P re ip0 s)).
-  { apply H; try assumption.
-    - intros x x1 K (A & B & C). split; [eapply keep_vm_ok; eauto|].
-      destruct K as (K1 & K2 & K3 & K4 & K5). split; [congruence|]. intros a. rewrite K3. apply C.
+  set (J := fun x => vm_ok x /\ same_upvalues s x /\ heap_mono (st_heap s) (st_heap x)).
+  assert (G : sres_inv J (step F bld P re ip0 s)).
+  { apply step_quiet; try assumption.
+    - intros x x1 K (A & B & C). split; [eapply keep_vm_ok; eauto|]. split; [eapply keep_same_upvalues; eauto|].
+      eapply heap_mono_trans; [exact C|apply K].
     - intros x (A & _). exact A.
     - intros x c (A & B) Hc. split; [apply vm_ok_set_calls; assumption|exact B].
-    - split; [exact Hs|]. split; reflexivity. }
-  unfold sres_inv in G. destruct (step F bld P re ip0 s); exact G.
+    - intros _ x ua u wv Hu Hl (A & B & C).
+      split; [apply write_closed_vm_ok; assumption|]. split.
+      + destruct (write_closed_keep0 x ua u wv Hu Hl) as (K1 & K2 & K3 & _). destruct B as (B1 & B2).
+        split; [congruence|]. intros a. rewrite K3. apply B2.
+      + eapply heap_mono_trans; [exact C|apply write_closed_mono; assumption].
+    - split; [exact Hs|]. split; [split; reflexivity|apply heap_mono_refl]. }
+  unfold sres_inv, J in G. destruct (step F bld P re ip0 s); exact G.
+Qed.
+
+(* every quiet instruction but SetUpvalue: the upvalue objects are the same objects, values included *)
+Definition same_upvalue_objects (s0 s : state) : Prop :=
+  forall a u, hget (st_heap s) a = Some (OUp u) <-> hget (st_heap s0) a = Some (OUp u).
+
+Theorem step_quiet_same_objects : forall F bld P reenter ip0 s,
+  ~ In (nth (N.to_nat ip0) (p_code P) 255%N) [4; 22; 43; 45; 46]%N ->
+  (nth (N.to_nat ip0) (p_code P) 255%N = 11%N -> not_native_callee s) ->
+  vm_ok s ->
+  match step F bld P reenter ip0 s with
+  | SNext _ s' | SExit s' | SErr _ _ s' => vm_ok s' /\ same_upvalue_objects s s'
+  | SStop _ _ => True
+  end.
+Proof.
+  intros F bld P re ip0 s Hq H11 Hs.
+  set (J := fun x => vm_ok x /\ same_upvalue_objects s x).
+  assert (G : sres_inv J (step F bld P re ip0 s)).
+  { apply step_quiet; try assumption.
+    - intros x x1 K (A & B). split; [eapply keep_vm_ok; eauto|].
+      destruct K as (_ & _ & K7). intros a u. rewrite K7. apply B.
+    - intros x (A & _). exact A.
+    - intros x c (A & B) Hc. split; [apply vm_ok_set_calls; assumption|exact B].
+    - intros Hin. apply Hq. cbn in *. tauto.
+    - intros E. exfalso. apply Hq. rewrite E. cbn. tauto.
+    - split; [exact Hs|]. intros a u. reflexivity. }
+  unfold sres_inv, J in G. destruct (step F bld P re ip0 s); exact G.
 Qed.
 
 Lemma same_upvalues_refl s : same_upvalues s s.
